@@ -412,6 +412,40 @@ J gen_pfx(uint64_t seed, const J &opts)
 	};
 	PfxModel shadow;
 	J ops = J::arr();
+	if (g.chance(25)) {
+		// a complete chain /0 ... /width on one path (the deepest node sits as deep as the address is wide), then
+		// every route near it is queried
+		int fam = g.chance(500) ? 4 : 6, w = fam == 4 ? 32 : 128;
+		u128 base = g.chance(500) ? ~(u128)0 : (((u128)g.next() << 64) | g.next());
+		std::vector<int> order;
+		for (int l = 0; l <= w; l++)
+			order.push_back(l);
+		for (size_t i = order.size() - 1; i > 0; i--)
+			std::swap(order[i], order[g.below(i + 1)]);
+		for (int l : order) {
+			PfxRec r;
+			r.fam = fam;
+			r.len = l;
+			r.addr = PfxRec::mask(base, l, fam);
+			r.maxlen = g.chance(500) ? l : w;
+			r.asn = 64500;
+			r.src = (int)g.below(3);
+			J op = J::obj();
+			op["op"] = "add";
+			op["r"] = r.json();
+			ops.push(op);
+		}
+		J q = J::obj();
+		q["op"] = "q";
+		q["salt"] = (long long)g.below(1000);
+		q["n"] = 100000;
+		ops.push(q);
+		plan["ops"] = ops;
+		plan["callbacks"] = 1;
+		plan["query_every"] = 0;
+		plan["query_budget"] = 0;
+		return plan;
+	}
 	for (int i = 0; i < nops; i++) {
 		J op = J::obj();
 		unsigned k = (unsigned)g.below(100);
